@@ -231,11 +231,11 @@ func nestedFactsOf(w *World, k *Kind) *KindFacts {
 }
 
 type SizeVerdict struct {
-	Verdict string
-	Diag    string
-	Note    string
+	Verdict  string
+	Diag     string
+	Note     string
 	Symbolic bool
-	L, S, E *Term
+	L, S, E  *Term
 }
 
 // compareSize decides size/<kind>: sizeM ≡ sizeL and, for pre-sized buffers,
